@@ -889,7 +889,7 @@ def worker(args):
         else:
             sigs = [s for n in (2, 3, 4) for s in coords.signatures(n)]
             if sigs_mode != "all":
-                sigs = sigs[::3]
+                sigs = sigs[:2] + sigs[2::3]      # both planar systems, every third of the others
             try:
                 out["calls"] += run_layout(case, elems, sigs, out["records"])
             except Exception as ex:
